@@ -8,6 +8,7 @@ import (
 	"io"
 	"os"
 	"path/filepath"
+	"strconv"
 	"strings"
 
 	"flamingo.me/flamingo/v3/framework/flamingo"
@@ -29,6 +30,8 @@ type tfunc struct {
 
 func (t tfunc) Func(ctx context.Context) interface{} { return t.f(ctx) }
 
+type whoKey struct{}
+
 // plainFunc wraps an ordinary Go function as flamingo.TemplateFunc
 func plainFunc(f interface{}) flamingo.TemplateFunc {
 	return tfunc{func(context.Context) interface{} { return f }}
@@ -47,7 +50,18 @@ func moduleFuncs() map[string]flamingo.TemplateFunc {
 		"trim":       &templatefunctions.TrimFunc{},
 		"escapeHtml": &templatefunctions.EscapeHTMLFunc{},
 		"parseInt":   &templatefunctions.ParseInt{},
-		"vpIdent":    plainFunc(func(x interface{}) interface{} { return x }),
+		"debug":      templatefunctions.DebugFunc{},
+		// a function bound to the request context, as url() / get() / data() of a flamingo application are: it answers with
+		// what THIS render's context carries
+		"vpWho": tfunc{func(ctx context.Context) interface{} {
+			return func() string {
+				if v, ok := ctx.Value(whoKey{}).(string); ok {
+					return "who:" + v + ";"
+				}
+				return "who:nobody;"
+			}
+		}},
+		"vpIdent": plainFunc(func(x interface{}) interface{} { return x }),
 		// an application that registers a template function called "range" makes `range(a, b)` compile to the built-in __Range
 		"range": plainFunc(func(x interface{}) interface{} { return x }),
 	}
@@ -57,8 +71,12 @@ type EngineSpec struct {
 	Files     map[string]string // name (without .ast.json) -> AST JSON
 	Debug     bool
 	RateLimit int
-	Extra     map[string]flamingo.TemplateFunc
-	Manifest  string // content of manifest.json ("" = no file); also registers the module's asset() function
+	// how the limit gets onto the engine: "" = NewEngineWithOptions(WithRateLimit(n)); "after:<k>" = WithRateLimit(k), then
+	// WithRateLimit(n) (the later option decides); "inject" = NewEngine(nil) (which pre-sets 8) followed by Inject{RateLimit: n},
+	// the path the dependency injection takes
+	RateLimitVia string
+	Extra        map[string]flamingo.TemplateFunc
+	Manifest     string // content of manifest.json ("" = no file); also registers the module's asset() function
 }
 
 type Eng struct {
@@ -90,7 +108,19 @@ func newEngine(spec EngineSpec) (*Eng, error) {
 			return nil, err
 		}
 	}
-	e := pugjs.NewEngineWithOptions(pugjs.WithRateLimit(spec.RateLimit))
+	var e *pugjs.Engine
+	switch {
+	case spec.RateLimitVia == "inject":
+		e = pugjs.NewEngine(nil)
+		e.Inject(&struct {
+			RateLimit float64 `inject:"config:pug_template.ratelimit"`
+		}{float64(spec.RateLimit)})
+	case strings.HasPrefix(spec.RateLimitVia, "after:"):
+		k, _ := strconv.Atoi(strings.TrimPrefix(spec.RateLimitVia, "after:"))
+		e = pugjs.NewEngineWithOptions(pugjs.WithRateLimit(k), pugjs.WithRateLimit(spec.RateLimit))
+	default:
+		e = pugjs.NewEngineWithOptions(pugjs.WithRateLimit(spec.RateLimit))
+	}
 	e.Basedir = dir
 	e.Debug = spec.Debug
 	e.Logger = flamingo.NullLogger{}
@@ -172,7 +202,12 @@ func (e *Eng) Render(ctx context.Context, name string, data interface{}) (res Re
 
 // renderOne: one template "t" (plus optional extra files), explicit load then render.
 func renderOne(ast string, data interface{}, debug bool, extra map[string]flamingo.TemplateFunc) Result {
-	eng, err := newEngine(EngineSpec{Files: map[string]string{"t": ast}, Debug: debug, Extra: extra})
+	return renderAmong(map[string]string{"t": ast}, data, debug, extra)
+}
+
+// renderAmong: template "t" is rendered on an engine that holds the given files (t and its neighbours in the same directory)
+func renderAmong(files map[string]string, data interface{}, debug bool, extra map[string]flamingo.TemplateFunc) Result {
+	eng, err := newEngine(EngineSpec{Files: files, Debug: debug, Extra: extra})
 	if err != nil {
 		return Result{Class: "harness-error", Msg: err.Error()}
 	}
